@@ -9,8 +9,10 @@ def reg(name, feature, props, tier, clause, engine="G", fixture="", **kw):
     H.append(d)
 
 
-def treg(name, feature, props, fixture, tier="quick"):
-    T.append(dict(name=name, feature=feature, props=props, fixture=fixture, tier=tier))
+def treg(name, feature, props, fixture, tier="quick", **kw):
+    d = dict(name=name, feature=feature, props=props, fixture=fixture, tier=tier)
+    d.update(kw)
+    T.append(d)
 
 
 RT = "sylvia run-time crate"
@@ -61,9 +63,9 @@ for t in ["exec_msg_params_exact", "sudo_msg_params_exact", "query_msg_params_ex
 AT = "fx_attr"
 reg("c17_fx_attr_renamed_variant", "g_attr", ["C17", "C01"], "quick", "sv::attr(serde(rename=..)) takes effect on that handler's variant only (recording Serializer)", fixture=AT)
 reg("c17_fx_attr_default_field", "g_attr", ["C17", "C01"], "quick", "#[serde(default)] written on a handler argument is attached to the message field: the field may be absent on the wire, every other field may not (scripted Deserializer)", fixture=AT)
-treg("fx_attr.T.msg_attr_lands_on_designated_kinds_only", "g_attr", ["C17"], AT)
+treg("fx_attr.T.msg_attr_lands_on_designated_kinds_only", "g_attr", ["C17"], AT, native=True)
 treg("fx_attr.T.accepted", "g_attr", ["C17"], AT)
-treg("fx_attr.T.msg_attr_on_fieldless_struct_messages", "g_attr", ["C17"], AT)
+treg("fx_attr.T.msg_attr_on_fieldless_struct_messages", "g_attr", ["C17"], AT, native=True)
 
 # ---- fx_exec (hand/exec.rs)
 EX = "fx_exec"
